@@ -24,6 +24,8 @@ def var_decl(vk, val):
         return f"variable({fmt_val(val)})"
     if vk == 'in':
         return f"input({fmt_val(val)})"
+    if isinstance(val, int) and not isinstance(val, bool):
+        return val          # a constant declared with an integer default (k: 2)
     return float(val)
 
 
